@@ -36,6 +36,10 @@ const (
 	C08EchoOff    = 0
 	C08EchoSep    = 1 // a read boundary follows every echoed write
 	C08EchoMerged = 2 // echo bytes may share reads with the reply that follows
+	// C08EchoCoalesced: pty style: the echo of the whole request, the reply and the echo of the
+	// final return are handed to the transport in one piece (one read can carry all of it) and
+	// the line then stays silent
+	C08EchoCoalesced = 3
 )
 
 type C08Server struct {
@@ -52,10 +56,15 @@ type C08Server struct {
 	logging   bool
 	finalLF   bool // the next client write is the return that follows a completed request
 	sent      map[int]bool
+	corking   bool     // output is being collected until the final return of the request arrives
+	cork      [][]byte // collected output; a nil item is a read boundary
 }
 
-func NewC08Server(caps11 bool) *C08Server {
-	x := &C08Server{NCServer: NewNCServer(true, caps11), sent: map[int]bool{}}
+func NewC08Server(caps11 bool) *C08Server { return NewC08ServerCaps(true, caps11) }
+
+// NewC08ServerCaps builds a server advertising base:1.0 and/or base:1.1.
+func NewC08ServerCaps(caps10, caps11 bool) *C08Server {
+	x := &C08Server{NCServer: NewNCServer(caps10, caps11), sent: map[int]bool{}}
 	x.NCServer.Behave = x.behave
 	x.Pipe.OnWrite = x.onWrite
 	return x
@@ -77,17 +86,54 @@ func (x *C08Server) logSeg(s C08Seg) {
 	x.Segs = append(x.Segs, s)
 }
 
-func (x *C08Server) onWrite(b []byte) {
-	if x.EchoMode != C08EchoOff && x.logging {
-		x.logSeg(C08Seg{Kind: "echo", Body: append([]byte{}, b...)})
-		x.Emit(b)
-		if x.EchoMode == C08EchoSep || x.finalLF {
+// out / bar emit bytes / force a read boundary, through the cork when output is being collected.
+func (x *C08Server) out(b []byte) {
+	if x.corking {
+		x.cork = append(x.cork, append([]byte{}, b...))
+		return
+	}
+	x.Emit(b)
+}
+
+func (x *C08Server) bar() {
+	if x.corking {
+		x.cork = append(x.cork, nil)
+		return
+	}
+	x.EmitBarrier()
+}
+
+func (x *C08Server) flush() {
+	x.corking = false
+	for _, it := range x.cork {
+		if it == nil {
 			x.EmitBarrier()
+		} else {
+			x.Emit(it)
 		}
 	}
+	x.cork = nil
+}
+
+func (x *C08Server) onWrite(b []byte) {
+	final := x.finalLF
 	x.finalLF = false
+	if x.EchoMode != C08EchoOff && x.logging {
+		if x.EchoMode == C08EchoCoalesced && !final {
+			x.corking = true
+		}
+		x.logSeg(C08Seg{Kind: "echo", Body: append([]byte{}, b...)})
+		x.out(b)
+		if x.EchoMode == C08EchoSep {
+			x.bar()
+		}
+	}
 	x.NCServer.in = append(x.NCServer.in, b...)
 	for x.NCServer.step() {
+	}
+	if final && x.EchoMode != C08EchoOff && x.logging {
+		x.flush()
+		x.EmitBarrier()
 	}
 }
 
@@ -109,12 +155,12 @@ func (x *C08Server) emitReplyOf(i int, merged bool) {
 		bodyLen = len(fr) - 1
 	}
 	if !merged {
-		x.EmitBarrier()
+		x.bar()
 	}
 	x.logSeg(C08Seg{Kind: "reply", To: i, Merged: merged, Body: append([]byte{}, fr[:bodyLen]...), Tail: append([]byte{}, fr[bodyLen:]...)})
-	x.Emit(fr)
+	x.out(fr)
 	if !merged {
-		x.EmitBarrier()
+		x.bar()
 	}
 }
 
@@ -127,17 +173,17 @@ func (x *C08Server) behave(i int, _ NCRequest) NCReply {
 	p := x.Plans[i]
 	if rg, ok := x.Rogue[i]; ok {
 		fr := x.Frame(NCReply{Payload: rg})
-		x.EmitBarrier()
+		x.bar()
 		x.logSeg(C08Seg{Kind: "rogue", Body: fr})
-		x.Emit(fr)
-		x.EmitBarrier()
+		x.out(fr)
+		x.bar()
 	}
 	for _, j := range p.Before {
 		x.emitReplyOf(j, false)
 	}
 	if p.Mode == 0 {
 		_, rogue := x.Rogue[i]
-		merged := x.EchoMode == C08EchoMerged && len(p.Before) == 0 && !rogue
+		merged := (x.EchoMode == C08EchoMerged || x.EchoMode == C08EchoCoalesced) && len(p.Before) == 0 && !rogue
 		x.emitReplyOf(i, merged)
 	}
 	for _, j := range p.After {
